@@ -71,6 +71,11 @@ func (s *Server) Shutdown(ctx context.Context) error {
 
 func (s *Server) proxyRoute(c *gin.Context) {
 	s.proxy.ServeHTTP(c.Writer, c.Request)
+
+	// This is the 'no route' handler, so if the upstream responds with 404 and
+	// an empty body, Gin considers the response unwritten and replaces it
+	// with its own 404 page. Therefore mark the response as written.
+	c.Writer.WriteHeaderNow()
 }
 
 func (s *Server) panicRoute(c *gin.Context, err any) {
